@@ -135,7 +135,8 @@ Definition release (me : nat) (s : state) : option state :=
 
 (* the resume() of the waiter's component *)
 Definition signal (s : state) : state :=
-  match md s with Fallback => set_flag s true | Poller => set_pipe s (S (pipe s)) end.
+  set_pipe (set_flag s (match md s with Fallback => true | Poller => flag s end))
+           (match md s with Fallback => pipe s | Poller => S (pipe s) end).
 
 (* `time_left >= 0 and (self._time_left < 0 or self._time_left > time_left)` for time_left = x in {Zero, Pos} *)
 Definition must_write (old x : tl) : bool :=
